@@ -29,7 +29,7 @@ LIB = {
     15: (32, 32, S444, 0, 8, 0, 4), 16: (40, 48, S440, 0, 8, 0, 3), 17: (64, 32, S411, 0, 8, 0, 3),
     18: (32, 64, S441, 0, 8, 0, 3), 19: (32, 32, S444, 0, 8, 0, 3), 20: (128, 96, S420, 0, 8, 0, 3),
     21: (64, 64, S420, 0, 8, 1, 3), 22: None, 23: (32, 24, S420, 0, 8, 0, 3), 24: (64, 48, S420, 0, 8, 0, 3),
-    25: (64, 64, S422, 0, 8, 0, 3), 26: (64, 64, S444, 0, 8, 0, 3), 27: (256, 256, S444, 0, 8, 1, 3),
+    25: (64, 64, S422, 0, 8, 0, 3), 26: (64, 64, S444, 0, 8, 0, 3), 27: (256, 256, S444, 0, 8, 1, 3), 28: None, 29: None,
 }
 MCUW = {S444: 8, S422: 16, S420: 16, SGRAY: 8, S440: 8, S411: 32, S441: 8}
 MCUH = {S444: 8, S422: 8, S420: 16, SGRAY: 8, S440: 16, S411: 8, S441: 32}
@@ -55,7 +55,7 @@ class Gen:
     def jref(self, kinds, ids=None):
         r = self.r
         if ids is None:
-            ids = [i for i in LIB if i not in (22, 23, 27)]
+            ids = [i for i in LIB if i not in (22, 23, 27, 28, 29)]
         i = r.choice(ids)
         k = r.choice(kinds)
         if k == "":
@@ -136,7 +136,7 @@ class Gen:
         k = r.below(16)
         ids = None
         if not probe and r.chance(1, 10):
-            ids = [22, 23]
+            ids = [22, 23, 28, 29]
         if k < 2:
             return ["h " + self.jref(kinds, ids)[1]]
         if k < 7:
@@ -254,6 +254,52 @@ class Gen:
             ops.insert(r.range(2, len(ops) - 1), "d 8 27.e%d 0" % r.range(100, 900) if inst in "dt" else "bad 0")
         return "I %s ; " % inst + " ; ".join(ops + [op])
 
+    def marker_history(self):
+        """tables-only datastreams (with COM / APP1 / APP2-ICC markers) read by tj3DecompressHeader / handed to the
+        decompression functions, then a probe that consumes saved markers; and tj3DecodeYUV8 calls that fail inside
+        their jpeg_read_header (dimension > 65500), then a decompression probe"""
+        r = self.r
+        k = r.below(5)
+        if k < 3:
+            inst = "t" if (k == 0 or r.chance(1, 2)) else "d"
+            ops = []
+            if r.chance(1, 2):
+                ops.append("set %d %d" % (P_SAVEMARKERS, r.range(0, 4)))
+            if inst == "t" and r.chance(1, 3):
+                ops.append("t %d %d %d n" % (r.choice([1, 11, 24]), r.range(0, 7), r.choice([0, 0, 64])))   # switches marker saving on
+            for _ in range(r.range(1, 3)):
+                tab = r.choice([22, 28, 28, 29])
+                ops.append(r.choice(["h %d", "h %d", "d 8 %d 0", "dy %d", "h %d.m1", "h %d.t40"]) % tab)
+            if r.chance(1, 2):
+                ops.append("set %d %d" % (P_SAVEMARKERS, r.range(0, 4)))
+            img = r.choice([0, 1, 3, 11, 24, 26])
+            if inst == "t" and k == 0:
+                probe = ["t %d %d %d %s" % (img, r.range(0, 7), r.choice([0, 0, 0, 64, 32]), r.choice(["n", "b"]))]
+            elif r.chance(1, 2):
+                probe = ["h %d" % img, "gi"]
+            elif inst == "t":
+                probe = ["h %d" % img, "tb %d %d" % (r.range(0, 7), r.choice([0, 64]))]
+            else:
+                probe = ["d 8 %d %d" % (img, self.pf())]
+            return "I %s ; " % inst + " ; ".join(ops + probe)
+        inst = r.choice(["d", "t"])
+        ops = ["set %d %d" % (P_SUBSAMP, r.range(0, 6))]
+        big = r.choice(["uy 65501 1 %d %d", "uy 1 65501 %d %d", "uy 70000 2 %d %d"]) % (r.range(0, 50), self.pf())
+        ops += [big] * r.range(1, 2)
+        if r.chance(1, 2):
+            ops.append("uy 16 16 %d %d" % (r.range(0, 50), self.pf()))
+        i, j = self.jref(PROBE_KINDS)
+        probe = r.choice([["d 8 %s %d" % (j, self.pf())], ["h " + j], ["dy " + j], ["h %d" % i, "gi"]] + ([["t %s 0 0 n" % j]] if inst == "t" else []))
+        return "I %s ; " % inst + " ; ".join(ops + probe)
+
+    def raw_marker_history(self):
+        r = self.r
+        ops = ["d %d 1 0 1 0" % r.choice([22, 28, 28, 29]) for _ in range(r.range(1, 2))]
+        if r.chance(1, 3):
+            ops.insert(0, "d %d 1 0 1 0" % r.choice([1, 24, 11]))
+        ops.append("d %d %d 0 1 0" % (r.choice([0, 1, 3, 11, 24, 26]), r.range(0, 1)))
+        return "L d ; " + " ; ".join(ops)
+
     def raw_history(self):
         r = self.r
         if r.chance(1, 2):
@@ -309,6 +355,14 @@ def finding_signature(hist, res):
     probe = ops[-1].split()
     if probe and probe[0] == "uy" and res.get("ops") and "BADHUFF" in res["ops"][-1].get("st", ""):
         return "F13:stale-huffman-slot:tj3DecodeYUV8-after-failed-header"
+    for oi, o in enumerate(res.get("ops", [])):
+        parts_ = o.get("S", "").split()
+        kk = [p for p in parts_ if p.startswith("k:")]
+        dd = [p for p in parts_ if p.startswith("d:") and p != "d:-"]
+        if kk and kk[0] != "k:1,1":
+            return "marker-reader-methods-not-restored-after:" + (ops[oi + 1].split()[0] if oi + 1 < len(ops) else "?")
+        if dd and (int(dd[0][2:].split(",")[7]) & 2):
+            return "saved-markers-survive:" + (ops[oi + 1].split()[0] if oi + 1 < len(ops) else "?") + (":probe-differs" if res.get("verdict") == "DIFF" else "")
     for oi, o in enumerate(res.get("ops", [])):
         mm = [p for p in o.get("S", "").split() if p.startswith("m:")]
         if mm and (mm[0][2:].split(",")[0] != "0" or mm[0][2:].split(",")[2] != "0"):
@@ -387,10 +441,14 @@ def run(ctx):
                 if l:
                     hists.append((l, "corpus"))
     g = Gen(rng)
-    for _ in range(ctx.n(1700, 30000)):
+    for _ in range(ctx.n(1500, 30000)):
         hists.append((g.history(), "tj"))
     for _ in range(ctx.n(40, 600)):
         hists.append((g.mem_history(), "mem"))
+    for _ in range(ctx.n(120, 2000)):
+        hists.append((g.marker_history(), "markers"))
+    for _ in range(ctx.n(40, 600)):
+        hists.append((g.raw_marker_history(), "raw"))
     for _ in range(ctx.n(300, 5000)):
         hists.append((g.raw_history(), "raw"))
     return run_hists(ctx, hists, exes, drv, flavours)
@@ -400,8 +458,18 @@ def run_hists(ctx, hists, exes, drv, flavours):
     inp = ("\n".join(h for h, _ in hists) + "\n").encode()
     env = {"ASAN_OPTIONS": "detect_leaks=0:abort_on_error=0:allocator_may_return_null=1", "UBSAN_OPTIONS": "print_stacktrace=0"}
     outs = {}
+    import threading
+    raw_out = {}
+
+    def _run(fl, exe):
+        raw_out[fl] = sh2([exe], input=inp, timeout=3000, env=env)
+    ths = [threading.Thread(target=_run, args=(fl, exe)) for fl, exe in exes.items()]
+    for t in ths:
+        t.start()
+    for t in ths:
+        t.join()
     for fl, exe in exes.items():
-        rc, out, err = sh2([exe], input=inp, timeout=3000, env=env)
+        rc, out, err = raw_out[fl]
         lines = out.decode("utf-8", "replace").split("\n")
         if rc != 0 or len(lines) < len(hists):
             ctx.broken_tie("harness:" + fl, "harness stopped early (rc=%d, %d of %d lines): %s" % (rc, len(lines), len(hists), err[-300:]))
@@ -438,6 +506,17 @@ def run_hists(ctx, hists, exes, drv, flavours):
                             bad = ("after call %d total_space_allocated exceeds what the memory pools hold by %s (compressor) / %s (decompressor) "
                                    "bytes: the next operations see less of TJPARAM_MAXMEMORY than a fresh instance (%s build)" % (oi + 1, v[0], v[2], fl))
                             break
+            if not bad and res["kind"] == "R":
+                for oi, o in enumerate(res["ops"]):
+                    parts_ = o.get("S", "").split()
+                    kk = [p for p in parts_ if p.startswith("k:")]
+                    dd = [p for p in parts_ if p.startswith("d:") and p != "d:-"]
+                    if kk and kk[0] != "k:1,1":
+                        bad = "after call %d the marker reader's read_markers / reset_marker_reader methods are not the original ones (%s) (%s build)" % (oi + 1, kk[0], fl)
+                        break
+                    if dd and (int(dd[0][2:].split(",")[7]) & 2):
+                        bad = "after call %d cinfo->marker_list still holds saved markers of the finished datastream (%s build)" % (oi + 1, fl)
+                        break
             if not bad and res["kind"] == "R":
                 # (1) on the implementation: after every call both objects are back in their START state
                 for oi, o in enumerate(res["ops"]):
@@ -487,7 +566,7 @@ PARAM_NAMES = ["stopOnWarning", "bottomUp", "noRealloc", "quality", "subsamp", "
 
 def parse_state(S):
     """'c:.. d:.. p:..' -> dict(c=[..]|None, d=[..]|None, p=[..])"""
-    out = {"c": None, "d": None, "p": [], "m": None}
+    out = {"c": None, "d": None, "p": [], "m": None, "k": None}
     for part in S.split():
         k, v = part[0], part[2:]
         if v == "-":
@@ -538,7 +617,8 @@ def to_model_call(idx, toks, res, pre, post, flags):
                   "jw": pp["jpegWidth"], "jh": pp["jpegHeight"], "jprec": pp["precision"], "subsamp": pp["subsamp"],
                   "colorspace": pp["colorspace"], "ncomp": 3, "o_xDensity": pp["xDensity"], "o_yDensity": pp["yDensity"],
                   "o_densityUnits": pp["densityUnits"], "o_losslessPSV": pp["losslessPSV"], "o_losslessPt": pp["losslessPt"],
-                  "tables_only": 1 if (i == 22 and kind == "") else 0})
+                  "tables_only": 1 if (i in (22, 28, 29) and kind == "") else 0,
+                  "saves_markers": 1 if ((d[7] & 2) or (i in (11, 26, 28) and pq["saveMarkers"] in (2, 4))) else 0})
         if len(d) >= 14:
             a.update({"jfif": d[11], "adobe": d[12], "adobe_tr": d[13]})
         selfc = 0 if (i == 23 or kind in ("r", "k", "x")) else 1
@@ -644,6 +724,8 @@ def to_model_call(idx, toks, res, pre, post, flags):
                 a["fail"] = S_ARGS
             elif T in (2, 10):
                 a["fail"] = S_XTHROW
+            elif E and E["side"] == "d" and E["gs"] in (200, 201):
+                a["fail"] = S_HDR
             elif E and E["side"] == "d" and E["gs"] == 202:
                 a["fail"] = S_STARTCC if E["code"] == "CONV" else S_START
                 if E["code"] not in ("CONV", "NOHUFF", "NOQUANT", "BADHUFF"):
@@ -847,6 +929,8 @@ def check_model(ctx, h, stream, res, m):
                 diffs.append("c.mem accounting: model image share %d+%d, impl drift %d" % (ms["m"][0], ms["m"][1], im["m"][0]))
             if ((ms["m"][2] + ms["m"][3]) != 0) != (im["m"][2] != 0):
                 diffs.append("d.mem accounting: model image share %d+%d, impl drift %d" % (ms["m"][2], ms["m"][3], im["m"][2]))
+        if ms.get("k") and im.get("k") and (ms["k"][0] == 1) != (im["k"][0] == 1 and im["k"][1] == 1):
+            diffs.append("d.marker reader methods: model original=%d impl %s" % (ms["k"][0], im["k"]))
         if ms["p"] != im["p"]:
             bad = [(PARAM_NAMES[j], ms["p"][j], im["p"][j]) for j in range(min(len(ms["p"]), len(im["p"]))) if ms["p"][j] != im["p"][j]]
             diffs.append("params " + str(bad[:4]))
